@@ -476,6 +476,45 @@ def rule_data_after_growth(rep, idx, rid='R3d'):
         rep.add(rid, key, ok, where, 'x = %d, the word is written at byte %d (%d bytes of padding), expected %d' % (lv.lo, word_at, dbytes - 4, want))
 
 
+def rule_names(rep, idx, rid='R9'):
+    rep.rule(rid, 'a reference resolves to the label that has exactly its name: among labels whose names are prefixes / extensions / '
+             'neighbours in sort order of one another the operand is computed from the right one, and a reference whose name is defined '
+             'nowhere is rejected (never bound to a neighbouring name), for relative and absolute references', floor=8)
+    where = pos(idx.func('hexasm::CodeGen::resolveLabels').node) + ' hexasm::CodeGen::resolveLabels'
+    names = ['la', 'lab', 'labx', 'zzz']
+    for mn in ('BR', 'LDAC'):
+        for target in names + ['l', 'lab0', 'lac', 'zzzz', 'a']:
+            B = Builder(idx)
+            labels = {nm: B.label(nm) for nm in names}
+            ref = B.ref(mn, target)
+            # word-aligned labels (4 OPR between them) so that absolute references are legal
+            prog = [ref, B.opr('ADD'), B.opr('ADD'), B.opr('ADD')]
+            for nm in names:
+                prog += [labels[nm]] + [B.opr('ADD') for _ in range(4)]
+            key = '%s %s among %s' % (mn, target, '/'.join(names))
+            try:
+                B.layout(prog)
+                thrown = None
+            except Thrown as e:
+                thrown = e.what
+            except (NeedSplit, AnalysisBroken) as e:
+                rep.undecided(rid, key, 'layout not interpreted: %s' % e, where)
+                continue
+            if target in labels:
+                lv = labels[target].fields.get('labelValue')
+                op = ref.fields.get('labelValue')
+                ok = thrown is None and isinstance(lv, IV) and lv.concrete() and isinstance(op, IV) and op.concrete()
+                if ok:
+                    size = B.I.invoke(B.I.resolve_method(ref, 'getSize', None), ref, [])
+                    want = (lv.lo - size.lo) if mn == 'BR' else lv.lo // 4
+                    ok = op.lo == want
+                rep.add(rid, key, ok, where, 'operand %r, label %s at byte %r' % (op, target, lv) if thrown is None else 'rejected with %s' % thrown)
+            else:
+                ok = thrown is not None and _is_repo_error(idx, thrown)
+                rep.add(rid, key, ok, where, ('rejected with %s' % thrown) if ok else
+                        'the name %s is defined nowhere, yet the reference is accepted with operand %r (bound to another label)' % (target, ref.fields.get('labelValue')))
+
+
 def _is_repo_error(idx, t):
     t = t.replace('const ', '').replace('struct ', '').replace('class ', '').strip()
     q = idx._resolve_record_name(t.split('::')[-1], 'hexasm::CodeGen') if t.split('::')[-1] not in ('Error',) else 'hexutil::Error'
@@ -1158,4 +1197,5 @@ def run(rep, tier):
     rule_oversized(rep, idx)
     rule_absolute_after_growth(rep, idx)
     rule_data_after_growth(rep, idx)
+    rule_names(rep, idx)
     rule_termination(rep, idx)
